@@ -43,7 +43,7 @@ def map_math_functions_by_name(i, func, pars, allowed_nonsmoothness="none"):
     elif func == make_f("tan") and len(pars) == 1:
         return make_f("tan")(*pars)**2+1
     elif func == make_f("log") and len(pars) == 1:
-        return primitives.quotient(1, pars[0])
+        return primitives.Quotient(1, pars[0])
     elif func == make_f("exp") and len(pars) == 1:
         return make_f("exp")(*pars)
     elif func == make_f("sinh") and len(pars) == 1:
